@@ -65,10 +65,12 @@ reg("C04", harness="c04_crc", level="exploration", deadline=(240, 1500),
     level_text="Every checksum variant (48 direct kernel symbols + 14 dispatched entries under 7 simulated CPU levels) is run over every length "
                "0..600 (thorough 0..2200), 65 guard-page placements/alignments, four designed data sets x four seeds, every unit impulse (each bit "
                "of each byte, len<=160/300), every single-bit seed, every split point (len<=200/400) and the large all-FF lengths, each compared "
-               "with a bit-serial reference anchored to 10 published check values.",
+               "with a bit-serial reference anchored to 10 published check values. Every kernel call is made with poisoned caller-saved registers. "
+               "Huge part: messages of 2^32 .. 2^32+16 MiB bytes (zeros plus one non-zero byte at the end / just beyond 4 GiB / near the start) on "
+               "every vector kernel and the dispatched entries; expected values from the reference via a zero-run operator measured from the reference.",
     level_note="CRCs are GF(2)-affine, Adler-32 affine mod 65521: the basis cases decide all data of those lengths only if the kernels have no "
                "data-dependent control flow (assumed; dense data checked). Lengths beyond the sweep are covered only by the listed large cases.",
-    runs=[dict(flavour="sim")],
+    runs=[dict(flavour="sim", part="sweep"), dict(flavour="sim", part="huge")],
     rule="case = (implementation, len, placement, data, seed) or (implementation, len, impulse position/bit) or (implementation, len, split); "
          "distinct_nontrivial = distinct (implementation, len) pairs fully swept; evaluations = kernel calls compared with the reference.")
 
